@@ -5,4 +5,5 @@ import "verif/internal/core"
 // All maps property IDs to their checks.
 var All = map[string]func(*core.Run){
 	"C01": C01,
+	"C02": C02,
 }
